@@ -2,16 +2,21 @@
 """Translator (T) for C18: regenerates coq/Gen/ShiftsGen.v from
 <repo>/primitiv/core/numeric_utils.h on every run.
 
-The body of `numeric_utils::calculate_shifts` is read from clang's JSON AST and written as a
-Gallina expression over N in which every uint64 wrap is explicit (`mod 18446744073709551616`).
+The body of `numeric_utils::calculate_shifts` is read from clang's JSON AST and written
+(a) as a value `prog` of the syntax of coq/Pool/ShiftsLang.v (whose evaluator makes every
+    uint64 wrap explicit) -- this is what the obligation `gen_matches` in coq/Pool/Shifts.v
+    compares with the reviewed copy, and
+(b) as the same function written directly as a Gallina expression over N with explicit
+    `mod 18446744073709551616` (Definition calculate_shifts; used by the failing-input sweep).
 Only the AST is used, so comments / whitespace / parentheses / hex-vs-decimal literals do not
-matter; the parameter is renamed `x` and the locals `v0, v1, ...` in declaration order;
-`a op= e` is normalised to `a = a op e`.  Any construct outside the small fragment below
-raises Unsupported (the check then reports the tie as broken and sweeps the real code).
+matter; the parameter becomes variable 0 and the locals 1, 2, ... in declaration order;
+`a op= e` is normalised to `a = a op e`, `a > b` to `b < a`, `!c` to `c == 0`.  Any construct
+outside the small fragment below raises Unsupported (the check then reports the tie as broken
+and sweeps the real code).
 
 Fragment: one uint64 parameter; statements `if (c) return e;`, `T v = e;`, `v = e;`,
 `v op= e;`, `return e;`; expressions over uint64 variables, non-negative integer literals,
-| & ^ >> << + - * (uint64), == != < <= > >= (bool), bool -> integer conversions, parentheses.
+| & ^ >> << + - * (at uint64), == != < <= > >= , !, bool -> integer conversions, parentheses.
 """
 import json
 import os
@@ -53,6 +58,8 @@ def load_ast(path):
 
 
 U64_TYPES = ("unsigned long", "unsigned long long")
+CMP = {"==": "OEq", "!=": "ONe", "<": "OLt", "<=": "OLe"}
+ARITH = {"|": "OLor", "&": "OLand", "^": "OLxor", ">>": "OShr", "<<": "OShl", "+": "OAdd", "-": "OSub", "*": "OMul"}
 
 
 def qual(node):
@@ -65,112 +72,82 @@ def is_u64(node):
 
 
 class Tr:
-    """Expressions are translated to (text, kind); kind in {'u64','bool','lit'}.
-    'lit' = a non-negative integer literal of any integer type (value-preserving to uint64)."""
+    """Expressions become (tree, kind): tree = ('var', n) | ('lit', v) | ('bin', op, a, b);
+    kind in {'u64', 'bool', 'lit'} ('lit' = non-negative integer literal of any integer type,
+    'bool' = a comparison, value 1/0; both convert to uint64 without changing the value)."""
 
     def __init__(self):
-        self.names = {}   # clang decl id -> normalised name
-        self.nloc = 0
+        self.names = {}   # clang decl id -> variable number
+        self.nvars = 1
 
     def bind_param(self, d):
         if not is_u64(d):
             raise Unsupported("parameter type " + qual(d))
-        self.names[d["id"]] = "x"
+        self.names[d["id"]] = 0
 
     def bind_local(self, d):
         if not is_u64(d):
             raise Unsupported("local type " + qual(d))
-        n = "v%d" % self.nloc
-        self.nloc += 1
+        n = self.nvars
+        self.nvars += 1
         self.names[d["id"]] = n
         return n
-
-    def as_u64(self, tk):
-        t, k = tk
-        if k in ("u64", "lit"):
-            return t
-        if k == "bool":
-            return "(if %s then 1 else 0)" % t
-        raise Unsupported("conversion from " + k)
 
     def expr(self, e):
         k = e["kind"]
         if k in ("ParenExpr", "ExprWithCleanups", "ConstantExpr"):
             return self.expr(e["inner"][0])
-        if k == "ImplicitCastExpr" or k == "CStyleCastExpr" or k == "CXXStaticCastExpr" or k == "CXXFunctionalCastExpr":
+        if k in ("ImplicitCastExpr", "CStyleCastExpr", "CXXStaticCastExpr", "CXXFunctionalCastExpr"):
             ck = e.get("castKind")
             sub = self.expr(e["inner"][0])
             if ck in ("LValueToRValue", "NoOp"):
                 return sub
             if ck == "IntegralCast":
                 if is_u64(e):
-                    return (self.as_u64(sub), "u64") if sub[1] != "lit" else sub
+                    return (sub[0], "u64" if sub[1] != "lit" else "lit")
                 if sub[1] in ("lit", "bool"):   # bool -> int promotion, literal of another width
                     return sub
                 raise Unsupported("integral cast to " + qual(e))
             if ck == "IntegralToBoolean":
-                return ("negb (%s =? 0)" % self.as_u64(sub), "bool")
+                return (("bin", "ONe", sub[0], ("lit", 0)), "bool")
             raise Unsupported("cast kind %s" % ck)
         if k == "IntegerLiteral":
             v = int(e["value"])
             if v < 0 or v >= W:
                 raise Unsupported("literal out of range")
-            return (str(v), "lit")
+            return (("lit", v), "lit")
         if k == "CXXBoolLiteralExpr":
-            return ("true" if e.get("value") else "false", "bool")
+            return (("lit", 1 if e.get("value") else 0), "bool")
         if k == "DeclRefExpr":
             rid = e.get("referencedDecl", {}).get("id")
             if rid not in self.names:
                 raise Unsupported("reference to unknown declaration " + str(e.get("referencedDecl", {}).get("name")))
-            return (self.names[rid], "u64")
+            return (("var", self.names[rid]), "u64")
         if k == "BinaryOperator":
-            op = e["opcode"]
             a, b = self.expr(e["inner"][0]), self.expr(e["inner"][1])
-            return self.binop(op, a, b, e)
+            return self.binop(e["opcode"], a, b, is_u64(e), qual(e))
         if k == "UnaryOperator" and e.get("opcode") == "!":
             a = self.expr(e["inner"][0])
-            if a[1] != "bool":
-                raise Unsupported("! on non-bool")
-            return ("negb %s" % a[0], "bool")
+            return (("bin", "OEq", a[0], ("lit", 0)), "bool")
         raise Unsupported("expression kind " + k)
 
-    def binop(self, op, a, b, e):
-        cmpops = {"==": "=?", "<": "<?", "<=": "<=?"}
-        if op in cmpops or op in ("!=", ">", ">="):
-            x, y = self.as_u64(a), self.as_u64(b)
-            if op == "!=":
-                return ("negb (%s =? %s)" % (x, y), "bool")
-            if op == ">":
-                return ("(%s <? %s)" % (y, x), "bool")
-            if op == ">=":
-                return ("(%s <=? %s)" % (y, x), "bool")
-            return ("(%s %s %s)" % (x, cmpops[op], y), "bool")
-        # arithmetic / bitwise: the result must be a 64-bit unsigned value
-        if not is_u64(e):
-            raise Unsupported("operator %s at type %s" % (op, qual(e)))
-        if op in (">>", "<<"):
-            if a[1] not in ("u64",) and not (a[1] == "lit" and is_u64(e)):
-                raise Unsupported("shift of a non-uint64 value")
-            x, y = self.as_u64(a), self.as_u64(b)
-            if op == ">>":
-                return ("(N.shiftr %s %s)" % (x, y), "u64")
-            return ("((N.shiftl %s %s) mod %d)" % (x, y, W), "u64")
-        x, y = self.as_u64(a), self.as_u64(b)
-        if op == "|":
-            return ("(N.lor %s %s)" % (x, y), "u64")
-        if op == "&":
-            return ("(N.land %s %s)" % (x, y), "u64")
-        if op == "^":
-            return ("(N.lxor %s %s)" % (x, y), "u64")
-        if op == "+":
-            return ("((%s + %s) mod %d)" % (x, y, W), "u64")
-        if op == "-":
-            return ("((%s + %d - %s) mod %d)" % (x, W, y, W), "u64")
-        if op == "*":
-            return ("((%s * %s) mod %d)" % (x, y, W), "u64")
-        raise Unsupported("operator " + op)
+    def binop(self, op, a, b, res_u64, res_ty):
+        if op in CMP:
+            return (("bin", CMP[op], a[0], b[0]), "bool")
+        if op == ">":
+            return (("bin", "OLt", b[0], a[0]), "bool")
+        if op == ">=":
+            return (("bin", "OLe", b[0], a[0]), "bool")
+        if op not in ARITH:
+            raise Unsupported("operator " + op)
+        # arithmetic / bitwise: must be evaluated at a 64-bit unsigned type
+        if not res_u64:
+            raise Unsupported("operator %s at type %s" % (op, res_ty))
+        if op in (">>", "<<") and a[1] == "bool":
+            raise Unsupported("shift of a bool")
+        return (("bin", ARITH[op], a[0], b[0]), "u64")
 
-    # statements: returns Gallina text of the rest of the block
+    # statements -> ('ifret', c, r, k) | ('let', v, e, k) | ('ret', e)
     def block(self, stmts):
         if not stmts:
             raise Unsupported("control reaches the end without return")
@@ -181,14 +158,12 @@ class Tr:
         if k == "NullStmt":
             return self.block(rest)
         if k == "ReturnStmt":
-            return self.as_u64(self.expr(s["inner"][0]))
+            return ("ret", self.expr(s["inner"][0])[0])
         if k == "IfStmt":
             inner = s["inner"]
             if len(inner) != 2 or s.get("hasElse"):
                 raise Unsupported("if with else / init")
             c = self.expr(inner[0])
-            if c[1] != "bool":
-                c = ("negb (%s =? 0)" % self.as_u64(c), "bool")
             th = inner[1]
             if th["kind"] == "CompoundStmt":
                 if len(th.get("inner", [])) != 1:
@@ -196,71 +171,113 @@ class Tr:
                 th = th["inner"][0]
             if th["kind"] != "ReturnStmt":
                 raise Unsupported("if body must be a return")
-            r = self.as_u64(self.expr(th["inner"][0]))
-            return "if %s then %s else\n  %s" % (c[0], r, self.block(rest))
+            r = self.expr(th["inner"][0])[0]
+            return ("ifret", c[0], r, self.block(rest))
         if k == "DeclStmt":
-            out = ""
             binds = []
             for d in s["inner"]:
                 if d["kind"] != "VarDecl" or "inner" not in d:
                     raise Unsupported("declaration without initialiser")
-                v = self.as_u64(self.expr(d["inner"][0]))
-                n = self.bind_local(d)
-                binds.append((n, v))
+                v = self.expr(d["inner"][0])[0]
+                binds.append((self.bind_local(d), v))
             body = self.block(rest)
             for n, v in reversed(binds):
-                body = "let %s := %s in\n  %s" % (n, v, body)
-            return out + body
+                body = ("let", n, v, body)
+            return body
         if k == "BinaryOperator" and s["opcode"] == "=":
-            lhs = s["inner"][0]
-            if lhs["kind"] != "DeclRefExpr":
-                raise Unsupported("assignment target")
-            n = self.expr(lhs)[0]
-            if n == "x":
-                raise Unsupported("assignment to the parameter")
-            v = self.as_u64(self.expr(s["inner"][1]))
-            return "let %s := %s in\n  %s" % (n, v, self.block(rest))
+            n = self.target(s["inner"][0])
+            return ("let", n, self.expr(s["inner"][1])[0], self.block(rest))
         if k == "CompoundAssignOperator":
-            lhs = s["inner"][0]
-            if lhs["kind"] != "DeclRefExpr":
-                raise Unsupported("assignment target")
-            l = self.expr(lhs)
-            if l[0] == "x":
-                raise Unsupported("assignment to the parameter")
-            op = s["opcode"][:-1]
-            fake = {"type": {"qualType": "unsigned long"}}
+            n = self.target(s["inner"][0])
             if not is_u64(s):
                 raise Unsupported("compound assignment at type " + qual(s))
-            v = self.binop(op, l, self.expr(s["inner"][1]), fake)[0]
-            return "let %s := %s in\n  %s" % (l[0], v, self.block(rest))
+            v = self.binop(s["opcode"][:-1], (("var", n), "u64"), self.expr(s["inner"][1]), True, "")[0]
+            return ("let", n, v, self.block(rest))
         raise Unsupported("statement kind " + k)
+
+    def target(self, lhs):
+        if lhs["kind"] != "DeclRefExpr":
+            raise Unsupported("assignment target")
+        n = self.expr(lhs)[0][1]
+        if n == 0:
+            raise Unsupported("assignment to the parameter")
+        return n
 
 
 def translate(path=None):
     path = path or os.path.join(repo(), "primitiv/core/numeric_utils.h")
     fn = load_ast(path)
-    if qual({"type": {"qualType": fn["type"]["qualType"].split("(")[0].strip()}}) not in U64_TYPES + ("std::uint64_t", "uint64_t"):
-        raise Unsupported("return type " + fn["type"]["qualType"])
     tr = Tr()
     params = [c for c in fn["inner"] if c["kind"] == "ParmVarDecl"]
     if len(params) != 1:
         raise Unsupported("expected one parameter")
     tr.bind_param(params[0])
     body = [c for c in fn["inner"] if c["kind"] == "CompoundStmt"][0]
-    text = tr.block(list(body.get("inner", [])))
-    return text
+    return tr.block(list(body.get("inner", [])))
+
+
+# ---- renderers
+
+def nat(n):
+    return "O" if n == 0 else "%d%%nat" % n
+
+
+def deep_e(e):
+    if e[0] == "var":
+        return "(Var %s)" % nat(e[1])
+    if e[0] == "lit":
+        return "(Lit %d)" % e[1]
+    return "(Bin %s %s %s)" % (e[1], deep_e(e[2]), deep_e(e[3]))
+
+
+def deep_s(s):
+    if s[0] == "ret":
+        return "Ret %s" % deep_e(s[1])
+    if s[0] == "ifret":
+        return "IfRet %s %s (\n  %s)" % (deep_e(s[1]), deep_e(s[2]), deep_s(s[3]))
+    return "Let %s %s (\n  %s)" % (nat(s[1]), deep_e(s[2]), deep_s(s[3]))
+
+
+def vname(n):
+    return "x" if n == 0 else "v%d" % (n - 1)
+
+
+def sh_e(e):
+    if e[0] == "var":
+        return vname(e[1])
+    if e[0] == "lit":
+        return str(e[1])
+    op, a, b = e[1], sh_e(e[2]), sh_e(e[3])
+    return {
+        "OLor": "(N.lor %s %s)", "OLand": "(N.land %s %s)", "OLxor": "(N.lxor %s %s)",
+        "OShr": "(N.shiftr %s %s)", "OShl": "((N.shiftl %s %s) mod {W})",
+        "OAdd": "((%s + %s) mod {W})", "OSub": "((%s + {W} - %s) mod {W})", "OMul": "((%s * %s) mod {W})",
+        "OEq": "(if %s =? %s then 1 else 0)", "ONe": "(if %s =? %s then 0 else 1)",
+        "OLt": "(if %s <? %s then 1 else 0)", "OLe": "(if %s <=? %s then 1 else 0)",
+    }[op].replace("{W}", str(W)) % (a, b)
+
+
+def sh_s(s):
+    if s[0] == "ret":
+        return sh_e(s[1])
+    if s[0] == "ifret":
+        return "if %s =? 0 then\n  %s\n  else %s" % (sh_e(s[1]), sh_s(s[3]), sh_e(s[2]))
+    return "let %s := %s in\n  %s" % (vname(s[1]), sh_e(s[2]), sh_s(s[3]))
 
 
 HEADER = """(* GENERATED by translate/gen_shifts.py from primitiv/core/numeric_utils.h -- do not edit.
-   numeric_utils::calculate_shifts as a Gallina expression over N; every uint64 wrap explicit. *)
+   numeric_utils::calculate_shifts (a) as syntax of Pool/ShiftsLang.v, (b) as a Gallina
+   expression over N with every uint64 wrap explicit. *)
 From Coq Require Import NArith.
+From PV Require Import Pool.ShiftsLang.
 Local Open Scope N_scope.
 
 """
 
 
-def render(text):
-    return HEADER + "Definition calculate_shifts (x : N) : N :=\n  " + text + ".\n"
+def render(prog):
+    return (HEADER + "Definition prog : stmt :=\n  " + deep_s(prog) + ".\n\n"
+            + "Definition calculate_shifts (x : N) : N :=\n  " + sh_s(prog) + ".\n")
 
 
 def write_if_changed(path, content):
@@ -277,14 +294,15 @@ def write_if_changed(path, content):
 
 def main():
     """Regenerate coq/Gen/ShiftsGen.v.  When the source is outside the fragment the file is
-    still written (with a definition that cannot match the reviewed copy), so that the
+    still written (with a program that cannot match the reviewed copy), so that the
     obligation gen_matches fails rather than a stale file being checked."""
     try:
         content = render(translate())
         err = None
     except Unsupported as e:
         err = str(e)
-        content = HEADER + "(* UNTRANSLATABLE: %s *)\nDefinition calculate_shifts (x : N) : N := 0.\n" % err.replace("*)", "* )")
+        content = (HEADER + "(* UNTRANSLATABLE: %s *)\n" % err.replace("*)", "* )")
+                   + "Definition prog : stmt := Ret (Lit 0).\nDefinition calculate_shifts (x : N) : N := 0.\n")
     write_if_changed(OUT, content)
     if err:
         raise Unsupported(err)
